@@ -1,7 +1,7 @@
 (* C11 - bounding boxes and extrema are conservative and tight; monotone splits hold.
    Statements per coordinate (x and y are treated identically by the code). *)
 From Coq Require Import QArith Qminmax.
-From LV Require Import Base.Prelude Model.Bezier Model.LineInter Proofs.C11_Extrema Gen.Functions Proofs.Gen_Geom Proofs.Gen_GeomProps.
+From LV Require Import Base.Prelude Model.Bezier Model.LineInter Proofs.C11_Extrema Gen.Functions Proofs.Gen_Geom Proofs.Gen_GeomProps Proofs.Gen_Geom2.
 Open Scope Q_scope.
 
 (* The square-root oracle assumed for the cubic root finder: only at the one discriminant the code
@@ -151,6 +151,26 @@ Theorem C11_src_quad_fast_box_contains_exact : forall c,
   snd (src_quad_bounding_range_y c) <= snd (src_quad_fast_bounding_range_y c).
 Proof. exact src_quad_fast_box_contains_exact. Qed.
 
+
+(* CubicBezierSegment::fast_bounding_range_x / y regenerated from cubic_bezier.rs on every run (tools/rs2coq.py): they ARE the
+   model's fast range, they contain the curve evaluated by the regenerated `x` / `y` at every parameter of [0,1], and each end
+   of the range is the ordinate of a control point (nothing larger than the control box is reported). *)
+Theorem C11_src_cubic_fast_box_is_model : forall c,
+  src_cubic_fast_bounding_range_x c = c_fast_bounding_range (px (c_from c)) (px (c_ctrl1 c)) (px (c_ctrl2 c)) (px (c_to c)) /\
+  src_cubic_fast_bounding_range_y c = c_fast_bounding_range (py (c_from c)) (py (c_ctrl1 c)) (py (c_ctrl2 c)) (py (c_to c)).
+Proof. intro c. split; [exact (src_cubic_fast_bounding_range_x_is_model c)|exact (src_cubic_fast_bounding_range_y_is_model c)]. Qed.
+
+Theorem C11_src_cubic_fast_box_contains_curve : forall c t, 0 <= t -> t <= 1 ->
+  fst (src_cubic_fast_bounding_range_x c) <= src_cubic_x c t /\ src_cubic_x c t <= snd (src_cubic_fast_bounding_range_x c) /\
+  fst (src_cubic_fast_bounding_range_y c) <= src_cubic_y c t /\ src_cubic_y c t <= snd (src_cubic_fast_bounding_range_y c).
+Proof. exact src_cubic_fast_box_contains_curve. Qed.
+
+Theorem C11_src_cubic_fast_box_ends_are_controls : forall c,
+  let r := src_cubic_fast_bounding_range_x c in
+  (fst r == px (c_from c) \/ fst r == px (c_ctrl1 c) \/ fst r == px (c_ctrl2 c) \/ fst r == px (c_to c)) /\
+  (snd r == px (c_from c) \/ snd r == px (c_ctrl1 c) \/ snd r == px (c_ctrl2 c) \/ snd r == px (c_to c)).
+Proof. exact src_cubic_fast_box_ends_are_controls. Qed.
+
 Print Assumptions C11_quad_extremum_sound.
 Print Assumptions C11_quad_extremum_complete.
 Print Assumptions C11_quad_dcoord_is_derivative.
@@ -171,3 +191,6 @@ Print Assumptions C11_quad_local_extremum_is_source.
 Print Assumptions C11_quad_extrema_are_source.
 Print Assumptions C11_src_quad_box_contains_curve.
 Print Assumptions C11_src_quad_fast_box_contains_exact.
+Print Assumptions C11_src_cubic_fast_box_is_model.
+Print Assumptions C11_src_cubic_fast_box_contains_curve.
+Print Assumptions C11_src_cubic_fast_box_ends_are_controls.
